@@ -973,6 +973,15 @@ func ruleListenerOwnManager(c *Ctx, rule string) {
 			connRoot, connField := root(call.Call.Args[1], site, 0)
 			amv, _ := root(call.Call.Args[2], site, 0)
 			mc, idx := callOf(w.resolveLoad(amv))
+			if p, isP := amv.(*ssa.Parameter); isP && (mc == nil || mc.Call.StaticCallee() != mk) {
+				// the loop is a function value kept in a struct next to the configuration it was
+				// built from (servedTransport{handler, generator, serve: func(am) {…}}) and called
+				// as tr.serve(am) with am made from tr's own fields
+				if ok, why := w.loopCarriedByConfigStruct(p, connRoot, mk, root); ok {
+					c.OK(rule, fname(fn), "manager", w.instrPos(in), why)
+					return
+				}
+			}
 			if mc == nil || mc.Call.StaticCallee() != mk || idx > 0 {
 				c.Bad(rule, fname(fn), "manager", w.instrPos(in), "the allocation manager this listener's loop runs on is "+w.desc(amv)+", not the result of createAllocationManager for this listener's configuration: the listener's own PermissionHandler may never be consulted, so a peer it refuses is installed all the same")
 				return
@@ -1015,4 +1024,122 @@ func (w *World) goSitesOf(fn *ssa.Function) []*ssa.Go {
 		})
 	}
 	return out
+}
+
+// loopCarriedByConfigStruct: p is the manager parameter of a function literal C that is stored
+// into a function-typed field fS of a struct literal L. Accepted when (1) every call through
+// field fS passes, for p, result #0 of createAllocationManager called with fields of the very
+// struct value the function was taken from, and (2) in L those fields are filled from the
+// same configuration value (connRoot) whose connection C's loop reads.
+func (w *World) loopCarriedByConfigStruct(p *ssa.Parameter, connRoot ssa.Value, mk *ssa.Function,
+	root func(ssa.Value, *ssa.Go, int) (ssa.Value, string)) (bool, string) {
+	body := p.Parent()
+	var lit *ssa.Alloc
+	var fS *types.Var
+	for _, mcl := range w.Closures[body] {
+		if mcl.Referrers() == nil {
+			continue
+		}
+		for _, r := range *mcl.Referrers() {
+			st, ok := r.(*ssa.Store)
+			if !ok || st.Val != ssa.Value(mcl) {
+				return false, ""
+			}
+			fa, ok := st.Addr.(*ssa.FieldAddr)
+			if !ok {
+				return false, ""
+			}
+			al, _ := allocBase(fa)
+			if al == nil {
+				return false, ""
+			}
+			lit, fS = al, fieldOf(fa)
+		}
+	}
+	if lit == nil || fS == nil {
+		return false, ""
+	}
+	// (1) the calls through the field
+	usedFields := map[string]bool{}
+	nCalls := 0
+	okCalls := true
+	for _, fn := range w.ModFns {
+		w.eachInstr(fn, func(in ssa.Instruction) {
+			call, ok := in.(*ssa.Call)
+			if !ok || call.Call.IsInvoke() || call.Call.StaticCallee() != nil {
+				return
+			}
+			holder, f, isL := fieldLoadAny(w, call.Call.Value)
+			if !isL || f != fS {
+				return
+			}
+			nCalls++
+			i := paramIndex(p)
+			if i < 0 || i >= len(call.Call.Args) {
+				okCalls = false
+				return
+			}
+			av, _ := root(call.Call.Args[i], nil, 0)
+			cc, idx := callOf(w.resolveLoad(av))
+			if cc == nil || cc.Call.StaticCallee() != mk || idx > 0 {
+				okCalls = false
+				return
+			}
+			for _, a := range cc.Call.Args[1:] {
+				h2, f2, ok2 := fieldLoadAny(w, a)
+				if !ok2 || !(h2 == holder || w.sameKey(h2, holder)) {
+					okCalls = false
+					return
+				}
+				usedFields[f2.Name()] = true
+			}
+		})
+	}
+	if nCalls == 0 || !okCalls || len(usedFields) == 0 {
+		return false, ""
+	}
+	// (2) the literal fills those fields from the configuration the loop reads
+	l := w.literalOf(lit)
+	if l == nil {
+		return false, ""
+	}
+	for name := range usedFields {
+		v := l.fields[name]
+		if v == nil {
+			return false, ""
+		}
+		r, f := root(v, nil, 0)
+		if f == "" || r != connRoot {
+			return false, ""
+		}
+	}
+	return true, fmt.Sprintf("the loop is carried in field %s of a struct whose handler and generator fields come from the same configuration; every call through the field passes the manager created from that struct's own fields (%d call site(s))", fS.Name(), nCalls)
+}
+
+// fieldLoadAny: v reads field f of a struct — through a pointer (load of a FieldAddr) or of a
+// struct value (Field); holder is the struct's address resp. value, resolved through captured
+// variables.
+func fieldLoadAny(w *World, v ssa.Value) (holder ssa.Value, f *types.Var, ok bool) {
+	v = stripIface(v)
+	switch x := v.(type) {
+	case *ssa.Field:
+		st, isS := x.X.Type().Underlying().(*types.Struct)
+		if !isS {
+			return nil, nil, false
+		}
+		return stripIface(w.resolveLoad(x.X)), st.Field(x.Field), true
+	case *ssa.UnOp:
+		if x.Op == token.MUL {
+			if fa, isFA := x.X.(*ssa.FieldAddr); isFA {
+				h := fa.X
+				if fv, isFV := h.(*ssa.FreeVar); isFV {
+					if b := w.binding(fv); b != nil {
+						h = b
+					}
+				}
+				return h, fieldOf(fa), true
+			}
+		}
+	}
+	return nil, nil, false
 }
